@@ -8,6 +8,8 @@ method that changes a captured range setting invalidates the objective; Step,
 Solve and every _Step re-bootstrap before the first evaluation; members are
 clipped on (re)decoration; random initial points use one index for both ends;
 SetStrictRanges' stores and (tight, clip) table; bounds constraint wiring.
+Round 3: Nelder-Mead publishes its simplex only with row 0 replaced by its
+constrained image after the last reordering (path-based).
 NOT decided: that the reported best lies in the box (runtime consequence of inf
 energies never winning a <), behaviour of impose_bounds/symbolic bounds on vectors.
 """
